@@ -351,3 +351,86 @@ Proof.
   - eapply Z.le_trans; [apply need_ge_direct|exact Hk].
   - eapply Z.le_trans; [apply need_ge_share|exact Hk].
 Qed.
+
+(* ------------------------------------------------------------------ a Tie key of the national result holds fewer seats than
+   there are parties: with two level parties in two constituencies the loop has no end *)
+From VL Require Import Proofs.HA_proofs Proofs.Divisor_proofs Model.Divisor.
+
+Lemma kget_PT_app (gains : list (C * Z)) tp l :
+  kget pk_eqb (map (fun cs : C * Z => (PK (fst cs), snd cs)) gains ++ tp) (PT l) = kget pk_eqb tp (PT l).
+Proof. induction gains as [|[c g] t IH]; simpl; [reflexivity|exact IH]. Qed.
+
+Lemma filter_length_le' {X} (f : X -> bool) l : (length (filter f l) <= length l)%nat.
+Proof. induction l as [|x l IH]; simpl; [lia|]. destruct (f x); simpl; lia. Qed.
+
+Theorem ha_eval_tie_bound d votes n ph l : divisor_ok d ->
+  (forall c v, In (c, v) votes -> (0 <= v)%Q) -> NoDup (map fst votes) ->
+  ha_eval d votes n = Ok ph ->
+  kget0 pk_eqb ph (PT l) < Z.max 1 (Z.of_nat (length votes)).
+Proof.
+  intros [Hpos Hmono] Hv Hnd. unfold ha_eval, evaluate.
+  destruct (initial_quotients d votes [] [] n) as [|q0 qs]; [discriminate|]. intros [= <-].
+  unfold kget0. rewrite kget_PT_app.
+  assert (Hp0 : forall c : C, 0 <= dget_or (@nil (C * Z)) c 0) by (intros c; unfold dget_or; simpl; lia).
+  destruct (st_tie (final_state d votes n [] [])) as [[T r]|] eqn:Et; cbn [kget]; [|lia].
+  destruct (pk_eqb (PT l) (PT T)); [|lia].
+  destruct (ha_tie d votes [] [] n Hpos Hmono Hv Hnd Hp0 T r Et) as (_ & Hr & m & _ & _ & Hperm).
+  destruct (ha_queue d votes [] [] n Hpos Hmono Hv Hnd Hp0) as (Hq1 & _ & Hq3).
+  assert (Hlen : (length T <= length votes)%nat).
+  { rewrite (Permutation_length Hperm), map_length.
+    eapply Nat.le_trans; [apply filter_length_le'|].
+    rewrite <- (map_length fst (st_qs _)), <- (map_length fst votes).
+    apply NoDup_incl_length; [exact Hq1|]. intros c Hc. apply in_map_iff in Hc. destruct Hc as (it & <- & Hit).
+    rewrite Forall_forall in Hq3. destruct (Hq3 _ Hit) as (v & Hin & _). apply in_map_iff. exists (fst it, v). auto. }
+  lia.
+Qed.
+
+Lemma ha_eval_answers (d : Z -> Q) votes n : (0 < d 0%Z)%Q -> 0 < n -> votes <> [] -> exists ph, ha_eval d votes n = Ok ph.
+Proof.
+  intros Hd Hn Hv. unfold ha_eval, evaluate.
+  destruct (initial_quotients d votes [] [] n) as [|q0 qs] eqn:E; [exfalso|eexists; reflexivity].
+  unfold initial_quotients in E.
+  set (items := flat_map _ votes) in E.
+  assert (Hitems : items <> []).
+  { subst items. destruct votes as [|[c v] t]; [congruence|]. simpl. unfold dget_or, cap_of, dget_or. simpl.
+    assert (Qle_bool (d 0) 0 = false) as ->.
+    { destruct (Qle_bool (d 0) 0) eqn:Eq; [|reflexivity]. apply Qle_bool_iff in Eq. exfalso. apply (Qlt_not_le _ _ Hd Eq). }
+    assert (0 <? n = true) as -> by (apply Z.ltb_lt; exact Hn). simpl. discriminate. }
+  apply (f_equal (@length _)) in E. rewrite rev_length in E.
+  rewrite (Permutation_length (sort_asc_perm items)) in E. destruct items; [congruence|simpl in E; discriminate].
+Qed.
+
+(* two parties level in each of two one-seat constituencies: for EVERY fuel the model is out of fuel -
+   the Python loop has no end on this input *)
+Theorem lobc_tie_diverges : forall fuel,
+  lobc_calculate d_hondt (App_dict [(1%positive, 1); (2%positive, 1)]) (Ov_given d_hondt) fuel
+    [(1%positive, [(1%positive, 1%Q); (2%positive, 1%Q)]); (2%positive, [(1%positive, 1%Q); (2%positive, 1%Q)])] 2 [] = BC_fuel.
+Proof.
+  intros fuel.
+  set (votes := [(1%positive, [(1%positive, 1%Q); (2%positive, 1%Q)]); (2%positive, [(1%positive, 1%Q); (2%positive, 1%Q)])]).
+  set (a := App_dict [(1%positive, 1); (2%positive, 1)]).
+  assert (Hc : constituency_evaluator pk_eqb (ha_eval d_hondt) PK a votes 2
+               = Ok [(1%positive, [(PT [1%positive; 2%positive], 1)]); (2%positive, [(PT [1%positive; 2%positive], 1)])])
+    by (vm_compute; reflexivity).
+  apply (lobc_fuel_iff d_hondt a (Ov_given d_hondt) fuel votes 2 [] _ Hc).
+  intros x Hx.
+  assert (Hlow : lowest_allowed pk_eqb [(1%positive, [(PT [1%positive; 2%positive], 1)]); (2%positive, [(PT [1%positive; 2%positive], 1)])] []
+                 = [(PT [1%positive; 2%positive], 2)]) by (vm_compute; reflexivity).
+  assert (Hdrop : drop_of pk_eqb [(1%positive, [(PT [1%positive; 2%positive], 1)]); (2%positive, [(PT [1%positive; 2%positive], 1)])] [] = 0)
+    by (vm_compute; reflexivity).
+  rewrite Hlow, Hdrop. unfold lobc_overall.
+  assert (Hq : qtotals votes = [(1%positive, 2%Q); (2%positive, 2%Q)]) by (vm_compute; reflexivity).
+  rewrite Hq.
+  destruct (ha_eval_answers d_hondt [(1%positive, 2%Q); (2%positive, 2%Q)] (2 - 0 + x)) as (ph & Hph);
+    [vm_compute; reflexivity|lia|discriminate|].
+  exists ph. split; [exact Hph|].
+  pose proof (ha_eval_tie_bound d_hondt [(1%positive, 2%Q); (2%positive, 2%Q)] (2 - 0 + x) ph [1%positive; 2%positive]
+                (proj1 d_hondt_ok)) as Hb.
+  assert (Hlt : kget0 pk_eqb ph (PT [1%positive; 2%positive]) < 2).
+  { assert (H1 : forall (c : C) (v : Q), In (c, v) [(1%positive, 2%Q); (2%positive, 2%Q)] -> (0 <= v)%Q)
+      by (intros c v [[= <- <-]|[[= <- <-]|[]]]; discriminate).
+    assert (H2 : NoDup (map fst [(1%positive, 2%Q); (2%positive, 2%Q)]))
+      by (simpl; constructor; [simpl; intros [H|[]]; discriminate|constructor; [simpl; tauto|constructor]]).
+    pose proof (Hb H1 H2 Hph) as H3. cbn [length] in H3. lia. }
+  unfold ksatisfied. simpl. apply andb_false_iff. left. apply negb_false_iff, Z.ltb_lt. exact Hlt.
+Qed.
